@@ -205,6 +205,18 @@ CLAIMS = {
             "DESIGN.md section 9 C19",
             TB + "; '%x' formatting / hexlify / unhexlify / int(.,16) by library model; key-level codecs bounded only",
             "deductive: AST->VC over ropes with a hexadecimal-text model (case split on magnitudes), z3; bounded monitor"),
+    "C18": ("proof",
+            "field mode (modulus = group order) on the real Private_key.sign and Public_key.verifies over an abstract cyclic "
+            "group with ghost discrete logarithms: verifies(h, sign(h, k)) is True for all h, d, k on both branches of the "
+            "nonce blinding (ideal membership with the inverse relations); z3: signatures with r or s outside [1, n-1] are "
+            "rejected before any group operation; ropes: sigdecode_der(sigencode_der(r,s)) = (r,s), trailing bytes refused "
+            "(integer codec for all sizes under C19).  Bounded: all curves x SHA-1..512 x five encodings, deterministic "
+            "signatures, bit flips of message and signature, another key, documented errors only, RFC 6979 A.2.5 vectors. "
+            "Not contracts: 'fails for ANY changed bit' as a universal statement, OpenSSL interoperability",
+            "DESIGN.md section 9 C18",
+            "pyvc/field.py + sympy; abstract group (cyclic, prime order; x a function of the point) assumed from C17 and "
+            "group theory; inverse_mod by its defining relation; RFC 6979 only by vectors",
+            "deductive: polynomial-identity VCs from the real sign/verify code, sympy; z3 for ranges and codecs; bounded monitor"),
 }
 
 NA_DEFAULT = "check not built yet (construction in progress, see DESIGN.md section 14)"
